@@ -36,6 +36,7 @@ type WriterArgs struct {
 	DropY      bool   `json:"dropY"`      // drop collection 2 after writing to it (its lastCas disappears with it)
 	SleepAtEnd int    `json:"sleepAtEnd"` // ms to idle at the end (external kill window)
 	EndMeta    bool   `json:"endMeta"`    // last write: a SetWithMeta / DeleteWithMeta carrying an old CAS into a collection that saw no other write
+	EndFuture  bool   `json:"endFuture"`  // last write: a SetWithMeta whose CAS is twenty minutes ahead of this process's clock
 	Profile    string `json:"profile"`    // "" = every entry point; "withmeta" = SetWithMeta/DeleteWithMeta (multi-statement transactions) with a few plain writes
 }
 
@@ -308,6 +309,18 @@ func WriterMain(arg string) int {
 			emit(out, "ENDMETA", map[string]uint64{"cas": old})
 		}
 	}
+	if a.EndFuture {
+		// a replicated version from a peer whose clock runs ahead arrives as the very last write: whoever opens the
+		// bucket next - with whatever clock - must stamp a later write of this key with a larger CAS
+		now := uint64(time.Now().UnixNano())
+		if a.Clock != 0 {
+			now = a.Clock
+		}
+		future := (now + 20*60*1e9) &^ 0xFFFF
+		if err := col0.SetWithMeta(context.Background(), "imported", 0, future, 0, nil, []byte(`{"from":"a peer with a fast clock"}`), sgbucket.FeedDataTypeJSON); err == nil {
+			emit(out, "ENDFUTURE", map[string]uint64{"cas": future})
+		}
+	}
 	if a.Clean {
 		b.Close(context.Background())
 		emit(out, "CLOSED", map[string]int{})
@@ -384,6 +397,7 @@ type ReaderArgs struct {
 	WaitExp      int      `json:"waitExp"` // ms to keep polling the "expiring" documents
 	NewWrites    int      `json:"newWrites"`
 	TryCreateNew bool     `json:"tryCreateNew"` // first try to open with CreateNew (must be refused: the bucket exists) - and must not harm it
+	Rewrite      []string `json:"rewrite"`      // keys of collection 0 to be rewritten with a CAS-checked regular write (CAS before / after reported)
 	CountAll     bool     `json:"countAll"`     // count tombstones and live documents of every opened collection through a Dump feed from CAS 0
 }
 
@@ -403,9 +417,18 @@ type ReaderOut struct {
 	OpenedAt          int64             `json:"openedAtUnixMs"`
 	CreateNewAccepted bool              `json:"createNewAccepted,omitempty"`
 	AdminFill         map[string]int    `json:"adminFill"` // admin-created collection -> filler documents readable after reopen
+	Rewrites          []Rewrite         `json:"rewrites,omitempty"`
 	Tombstones        int               `json:"tombstones"`
 	LiveDocs          int               `json:"liveDocs"`
 	CountErr          string            `json:"countErr,omitempty"`
+}
+
+// Rewrite is one CAS-checked regular write of an existing key after the reopen.
+type Rewrite struct {
+	Key    string `json:"key"`
+	Before uint64 `json:"casBefore"`
+	After  uint64 `json:"casAfter"`
+	Err    string `json:"err,omitempty"`
 }
 
 // ReaderMain is the body of `vcheck crashreader <json>`: a fresh process reopens the bucket and dumps what it sees.
@@ -584,6 +607,22 @@ func ReaderMain(arg string) int {
 		}
 		time.Sleep(30 * time.Millisecond)
 		out.ExpEvents = int(expEvents.Load())
+	}
+	for _, k := range a.Rewrite {
+		if cols[0] == nil {
+			break
+		}
+		_, before, gerr := cols[0].GetRaw(k)
+		if gerr != nil {
+			continue
+		}
+		rw := Rewrite{Key: k, Before: before}
+		after, werr := cols[0].WriteCas(k, 0, before, []byte(`{"rewritten":"after the reopen"}`), 0)
+		if werr != nil {
+			rw.Err = werr.Error()
+		}
+		rw.After = after
+		out.Rewrites = append(out.Rewrites, rw)
 	}
 	// new regular writes: their CAS must exceed everything acknowledged before
 	for i := 0; i < a.NewWrites; i++ {
